@@ -1,26 +1,67 @@
-import FstVerif.Model.Stream
+import FstVerif.Proofs.Seek
 import FstVerif.Props.C18
 /-
-C04 — automaton search. (`C04_search` is assembled from Proofs/Stream.lean.)
-Here: the automaton contract and the fact that the shipped automata meet it.
+C04 — automaton search. Statements here; proofs in Proofs/Stream.lean and
+Proofs/Seek.lean. The automaton is a universally quantified variable
+constrained only by the contract of the property.
 -/
-namespace Fst
+namespace Fst.Props
+open Fst
+variable {N σ : Type} {s : Store} {den : Nat → KV} {acc : NodeAccess N}
 
-/-- the contract of the property: no end-of-key hook, `can_match` never false
-while a match is still reachable -/
-structure Contract {σ : Type} (A : Aut σ) : Prop where
-  noEof : ∀ s, A.acceptEof s = none
-  canSound : ∀ s, A.canMatch s = false → ∀ w, A.isMatch (A.run s w) = false
+/-- the contract: no end-of-key hook, `can_match` never false while a match is still reachable -/
+structure Contract (A : Aut σ) : Prop where
+  noEof : ∀ x, A.acceptEof x = none
+  canSound : ∀ x, A.canMatch x = false → ∀ w, A.isMatch (A.run x w) = false
 
-theorem C04_contract_of_hints {σ : Type} (A : Aut σ) (h : HintsSound A) (he : ∀ s, A.acceptEof s = none) :
-    Contract A := ⟨he, h.1⟩
+/-- for every contract-abiding automaton and every bounds: exactly the in-range
+accepted keys, ascending, with their values and with the automaton state reached
+after each key (`search_with_state`); no panic; the stream ends -/
+theorem C04_search (A : Aut σ) (hA : Contract A) (hg : GoodStore s den) (hr : Represents acc s)
+    (root : Nat) (hroot : root = 0 ∨ ∃ n, (root, n) ∈ s) (min max : Bound) :
+    ∃ s0, streamNew acc A root min max = some s0 ∧
+    ∃ N, ∀ fuel, N ≤ fuel →
+      streamCollect acc A root fuel s0 [] =
+        some (((den root).filter fun kv => lowerOK min kv.1 && upperOK max kv.1 && A.accepts kv.1).map
+                fun kv => (kv.1, kv.2, A.run A.start kv.1)) :=
+  stream_correct hg hr root hroot hA.noEof hA.canSound min max
 
+/-- it suffices that the hint is sound on states reachable from the start state -/
+theorem C04_search_reachable (A : Aut σ) (hEof : ∀ x, A.acceptEof x = none)
+    (hCan : ∀ p, A.canMatch (A.run A.start p) = false → ∀ w, A.isMatch (A.run (A.run A.start p) w) = false)
+    (hg : GoodStore s den) (hr : Represents acc s)
+    (root : Nat) (hroot : root = 0 ∨ ∃ n, (root, n) ∈ s) (min max : Bound) :
+    ∃ s0, streamNew acc A root min max = some s0 ∧
+    ∃ N, ∀ fuel, N ≤ fuel →
+      streamCollect acc A root fuel s0 [] =
+        some (((den root).filter fun kv => lowerOK min kv.1 && upperOK max kv.1 && A.accepts kv.1).map
+                fun kv => (kv.1, kv.2, A.run A.start kv.1)) :=
+  stream_correct_reach hg hr root hroot hEof hCan min max
+
+/-- the result does not depend on how precise the pruning hints are -/
+theorem C04_hint_independent (A B : Aut σ) (hA : Contract A) (hB : Contract B)
+    (hstart : A.start = B.start) (hmatch : A.isMatch = B.isMatch) (haccept : A.accept = B.accept)
+    (hg : GoodStore s den) (hr : Represents acc s)
+    (root : Nat) (hroot : root = 0 ∨ ∃ n, (root, n) ∈ s) (min max : Bound) :
+    ∃ sA sB, streamNew acc A root min max = some sA ∧ streamNew acc B root min max = some sB ∧
+    ∃ N, ∀ fuel, N ≤ fuel →
+      streamCollect acc A root fuel sA [] = streamCollect acc B root fuel sB [] ∧
+      (streamCollect acc A root fuel sA []).isSome = true :=
+  stream_hint_independent hg hr root hroot hstart hmatch haccept hA.noEof hA.canSound hB.noEof hB.canSound min max
+
+/-- the shipped automata meet the contract, and the contract is closed under the combinators -/
+theorem C04_contract_of_hints (A : Aut σ) (h : HintsSound A) (he : ∀ x, A.acceptEof x = none) : Contract A :=
+  ⟨he, h.1⟩
 theorem C04_always_contract : Contract autAlways := ⟨fun _ => rfl, C18_hints_always.1⟩
-theorem C04_str_contract (s : Key) : Contract (autStr s) := ⟨fun _ => rfl, (C18_hints_str s).1⟩
-theorem C04_subseq_contract (s : Key) : Contract (autSubseq s) := ⟨fun _ => rfl, (C18_hints_subseq s).1⟩
-
-/-- the contract is closed under the combinators -/
-theorem C04_union_contract {σ τ : Type} (A : Aut σ) (B : Aut τ) (hA : HintsSound A) (hB : HintsSound B) :
+theorem C04_str_contract (k : Key) : Contract (autStr k) := ⟨fun _ => rfl, (C18_hints_str k).1⟩
+theorem C04_subseq_contract (k : Key) : Contract (autSubseq k) := ⟨fun _ => rfl, (C18_hints_subseq k).1⟩
+theorem C04_union_contract {τ : Type} (A : Aut σ) (B : Aut τ) (hA : HintsSound A) (hB : HintsSound B) :
     Contract (autUnion A B) := ⟨fun _ => rfl, (C18_hints_union A B hA hB).1⟩
+theorem C04_inter_contract {τ : Type} (A : Aut σ) (B : Aut τ) (hA : HintsSound A) (hB : HintsSound B) :
+    Contract (autInter A B) := ⟨fun _ => rfl, (C18_hints_inter A B hA hB).1⟩
+theorem C04_compl_contract (A : Aut σ) (hA : HintsSound A) :
+    Contract (autCompl A) := ⟨fun _ => rfl, (C18_hints_compl A hA).1⟩
+theorem C04_startswith_contract (A : Aut σ) (hA : HintsSound A) :
+    Contract (autStartsWith A) := ⟨fun _ => rfl, (C18_hints_startswith A hA).1⟩
 
-end Fst
+end Fst.Props
